@@ -32,7 +32,7 @@ ASSUMPTIONS = ['truth comes from aegmon/refs/render.py + wcs_zenithal.py (cross-
                'pull scale 1.4826*MAD exceeds 2.2; SNR 40-300 only; noise matched to the mode']
 MIN_REACH = {'source_finder:SourceFinder.find_sources_in_image': 1, 'source_finder:SourceFinder._fit_island': 1,
              'fitting:do_lmfit': 1}
-MIN_COUNTERS = {'nf_judged': 20, 'noisy_trials': 100}
+MIN_COUNTERS = {'nf_judged': 20, 'noisy_trials': 100, 'nf_cube_cases_plane_above_0': 4, 'nf_psfmap_judged': 6}
 BATCHES_PER_JOB = 6
 KEY_D25 = 'amplitude-bound-excludes-truth'
 KEY_SPLIT = 'pixel-noise-local-maxima-split-source'
@@ -165,6 +165,44 @@ def cases(seed, tier):
         c['cores'] = int(rng.choice([1, 2]))
         c.update(kind='nf', via='cli' if i % 4 == 3 else 'api', stratum='pedestal')
         out.append(c)
+    # the image is one plane of a cube (other planes: other zero levels, a decoy source elsewhere); forced or internal bkg
+    n_cube = 12 if tier == 'quick' else 120
+    for i in range(n_cube):
+        c = gen_source_case(rng, big_ok=False)
+        c['shape'] = [int(rng.integers(130, 170)), int(rng.integers(130, 170))]
+        c['index'] = [c['shape'][0] / 2.0 + float(rng.uniform(-25, 25)), c['shape'][1] / 2.0 + float(rng.uniform(-25, 25))]
+        c['src']['a'] = min(c['src']['a'], 8.0 * c['scale'] * 3600)
+        c['src']['b'] = min(c['src']['b'], c['src']['a'])
+        nplane = int(rng.integers(2, 5))
+        c['cube'] = {'planes': nplane, 'index': int(rng.integers(0, nplane)),
+                     'pedestals_in_rms': [float(rng.choice([-4.0, 3.0, 6.0, 15.0, 0.0])) for _ in range(nplane)]}
+        if i % 3 != 2:
+            c['cube']['index'] = max(1, c['cube']['index'])
+            c['pedestal_in_rms'] = c['cube']['pedestals_in_rms'][c['cube']['index']]
+            if all(p_ == c['pedestal_in_rms'] for p_ in c['cube']['pedestals_in_rms']):
+                c['cube']['pedestals_in_rms'][0] = c['pedestal_in_rms'] + 7.0
+        c['snr_forced'] = float(rng.uniform(30, 100))
+        c['cores'] = int(rng.choice([1, 2]))
+        c.update(kind='nf', via='cli' if i % 4 == 3 else 'api', stratum='cube')
+        out.append(c)
+    # an external psf map that differs from quadrant to quadrant of the image: the local psf (psf_a/psf_b columns) and with it
+    # the integrated flux are those of the map AT THE SOURCE
+    n_psf = 12 if tier == 'quick' else 120
+    for i in range(n_psf):
+        c = gen_source_case(rng, big_ok=False)
+        c['shape'] = [int(rng.integers(150, 200)), int(rng.integers(150, 200))]
+        c['crpix'] = [c['shape'][1] / 2.0 + float(rng.uniform(-30, 30)), c['shape'][0] / 2.0 + float(rng.uniform(-30, 30))]
+        c['index'] = [c['shape'][0] / 2.0 + float(rng.choice([-1, 1])) * float(rng.uniform(30, 50)),
+                      c['shape'][1] / 2.0 + float(rng.choice([-1, 1])) * float(rng.uniform(30, 50))]
+        c['src']['a'] = min(c['src']['a'], 8.0 * c['scale'] * 3600)
+        c['src']['b'] = min(c['src']['b'], c['src']['a'])
+        quads = []
+        for q in range(4):
+            qa = c['beam'][0] * float(rng.uniform(0.7, 1.0))
+            quads.append([qa, qa * float(rng.uniform(0.6, 1.0)), float(rng.uniform(-90, 90))])
+        c['psfmap'] = {'quadrants': quads, 'n': [int(rng.choice([36, 40, 48])), int(rng.choice([30, 40, 44]))]}
+        c.update(kind='nf', via='cli' if i % 4 == 3 else 'api', stratum='psfmap')
+        out.append(c)
     n_d25 = 30 if tier == 'quick' else 300
     for i in range(n_d25):
         c = gen_source_case(rng, d25=True)
@@ -207,6 +245,31 @@ def build(case):
     return h, z, truth, img, off
 
 
+def write_psf_map(case, z, truth, sc):
+    """3-plane psf cube (a, b [deg], pa [deg]) on its own coarser north-up grid of the image's projection, centred on the image
+    centre, constant within each quadrant -> (path, psf at the source, distance of the source from the nearest quadrant border in
+    map pixels); the psf at the source comes from the independent WCS of the map, not from the subject"""
+    from astropy.io import fits
+    rows, cols = case['shape']
+    n1, n2 = case['psfmap']['n']
+    rac, decc = [float(v) for v in z.index2sky(rows / 2.0 - 0.5, cols / 2.0 - 0.5)]
+    extent = 1.5 * case['scale'] * np.hypot(rows, cols)
+    cd = extent / min(n1, n2)
+    ph = wz.make_header(case['proj'], (rac, decc), (n1 / 2.0 + 0.5, n2 / 2.0 + 0.5), (-cd, cd), (n2, n1))
+    cube = np.zeros((3, n2, n1))
+    for q, (qa, qb, qpa) in enumerate(case['psfmap']['quadrants']):
+        rsel = slice(n2 // 2, n2) if q // 2 else slice(0, n2 // 2)
+        csel = slice(n1 // 2, n1) if q % 2 else slice(0, n1 // 2)
+        cube[0, rsel, csel], cube[1, rsel, csel], cube[2, rsel, csel] = qa, qb, qpa
+    path = os.path.join(sc, 'psf.fits')
+    fits.PrimaryHDU(cube.astype(np.float64), header=ph).writeto(path, overwrite=True)
+    zp = wz.ZenithalWCS({k_: ph[k_] for k_ in ('CTYPE1', 'CTYPE2', 'CRVAL1', 'CRVAL2', 'CRPIX1', 'CRPIX2', 'CDELT1', 'CDELT2')})
+    im, jm = [float(v) for v in zp.sky2index(truth['ra'], truth['dec'])]          # 0-based (row, column) in the map
+    q = 2 * int(im >= n2 // 2 - 0.5) + int(jm >= n1 // 2 - 0.5)
+    margin = min(abs(im - (n2 // 2 - 0.5)), abs(jm - (n1 // 2 - 0.5)))
+    return path, list(case['psfmap']['quadrants'][q]), float(margin)
+
+
 def pixbeam_kernel(z, truth, beam):
     """beam (deg, deg, deg E of N) at the source -> (sigma_major_px, sigma_minor_px, angle from +row toward +col)"""
     i0, j0 = z.sky2index(truth['ra'], truth['dec'])
@@ -225,7 +288,19 @@ def run_finder(case, img, h, rms, sc, bane=False, cores=1, bkg_internal=False):
     """-> list of dict rows (the catalogue), or raises"""
     from astropy.io import fits
     fn = os.path.join(sc, 'im.fits')
-    fits.PrimaryHDU(img.astype(np.float32), header=h).writeto(fn, overwrite=True)
+    cube = case.get('cube')
+    if cube:
+        planes = []
+        for k in range(cube['planes']):
+            if k == cube['index']:
+                planes.append(img)
+            else:
+                # another plane: its own zero level and a decoy source (the wanted source mirrored through the image centre)
+                planes.append(img[::-1, ::-1] * 1.7 + (cube['pedestals_in_rms'][k] - (case.get('pedestal_in_rms') or 0.0) * 1.7) * rms)
+        fits.PrimaryHDU(np.array(planes).astype(np.float32), header=h).writeto(fn, overwrite=True)
+    else:
+        fits.PrimaryHDU(img.astype(np.float32), header=h).writeto(fn, overwrite=True)
+    psf_fn = case.get('psf_file')
     if case.get('via') == 'cli':
         repo = sys_path_repo()
         tab = os.path.join(sc, 'out.csv')
@@ -236,6 +311,10 @@ def run_finder(case, img, h, rms, sc, bane=False, cores=1, bkg_internal=False):
             cmd += ['--forcerms', repr(float(rms))] + ([] if bkg_internal else ['--forcebkg', '0'])
         if not case['docov']:
             cmd += ['--nocov']
+        if cube:
+            cmd += ['--slice', str(cube['index'])]
+        if psf_fn:
+            cmd += ['--psf', psf_fn]
         p = subprocess.run(cmd, stdout=subprocess.PIPE, stderr=subprocess.STDOUT, timeout=600, cwd=sc)
         comp = os.path.join(sc, 'out_comp.csv')
         if not os.path.exists(comp):
@@ -253,6 +332,10 @@ def run_finder(case, img, h, rms, sc, bane=False, cores=1, bkg_internal=False):
         kw.update(rms=float(rms))
         if not bkg_internal:
             kw.update(bkg=0.0)
+    if cube:
+        kw.update(cube_index=cube['index'])
+    if psf_fn:
+        kw.update(imgpsf=psf_fn)
     srcs = sf.find_sources_in_image(fn, **kw)
     names = ['island', 'source', 'ra', 'dec', 'peak_flux', 'a', 'b', 'pa', 'int_flux', 'flags', 'err_ra', 'err_dec',
              'err_peak_flux', 'err_a', 'err_b', 'err_pa', 'err_int_flux', 'local_rms', 'ra_str', 'dec_str', 'psf_a', 'psf_b',
@@ -270,7 +353,7 @@ class SubjectError(Exception):
 
 def deltas(row, truth, case):
     """differences observed - injected, in the units of the tolerances / of the reported errors"""
-    beam = case['beam']
+    beam = case.get('local_psf') or case['beam']
     d = {}
     d['pos_deg'] = float(sphere.sep(row['ra'], row['dec'], truth['ra'], truth['dec']))
     d['ra'] = float(sphere.angdiff(row['ra'], truth['ra'])) * np.cos(np.radians(truth['dec']))     # great-circle degrees
@@ -400,6 +483,22 @@ def _run_nf(o, case, sc):
     wit = {'case': {k: case[k] for k in ('proj', 'crval', 'crpix', 'scale', 'shape', 'beam', 'index', 'docov', 'via', 'flip_dec', 'use_cd') if k in case},
            'truth': truth, 'forced_rms': rms, 'peak_pixel': peakpix, 'amp_bound_excludes_truth': bool(excluded)}
     armed = case.get('via') != 'cli'
+    if case.get('cube'):
+        wit['cube'] = case['cube']
+        o.count('nf_cube_cases')
+        if case['cube']['index'] > 0:
+            o.count('nf_cube_cases_plane_above_0')
+    psf_known = True
+    if case.get('psfmap'):
+        case = dict(case)
+        case['psf_file'], local, margin = write_psf_map(case, z, truth, sc)
+        wit['psf_map'] = dict(case['psfmap'], local_psf=local, map_pixels_from_quadrant_border=margin)
+        o.count('nf_psfmap_cases')
+        if margin < 2.0:
+            psf_known = False               # which map pixel serves a position next to a border is not part of the statement
+            o.count('nf_psfmap_source_near_quadrant_border_not_judged')
+        else:
+            case['local_psf'] = local
     if armed:
         _arm(o)
     ped = case.get('pedestal_in_rms')
@@ -443,6 +542,17 @@ def _run_nf(o, case, sc):
         o.count('pa_not_judged_round_source')
     o.count('nf_judged')
     bad = {}
+    if case.get('psfmap'):
+        if not psf_known:
+            e.pop('int')
+        else:
+            lp = case['local_psf']
+            o.count('nf_psfmap_judged')
+            e_psf = max(abs(r['psf_a'] / (lp[0] * 3600) - 1), abs(r['psf_b'] / (lp[1] * 3600) - 1))
+            o.worst('nf_psf_columns_vs_map_rel', e_psf)
+            if not e_psf <= 1e-3:
+                o.violate('psf_columns_are_not_the_map_at_the_source', dict(wit, psf_a=r['psf_a'], psf_b=r['psf_b'],
+                                                                            expected_arcsec=[lp[0] * 3600, lp[1] * 3600]))
     for k, v in e.items():
         if not excluded:
             o.worst('nf_%s_over_tol' % k, v / TOL[k])
